@@ -33,6 +33,11 @@ def canon_ast(o: Any, depth: int = 0) -> Any:
             if f.name in POS:
                 continue
             d[f.name] = canon_ast(getattr(o, f.name), depth + 1)
+        # attributes the constructor hangs on nodes outside the dataclass fields carry meaning too (a code item's
+        # `_right_condition`, an identifier's `role`, …); `_hr_sorted` is a bookkeeping flag of the DAG sort
+        for k, v in vars(o).items():
+            if k not in d and k not in POS and k != "_hr_sorted":
+                d[k] = canon_ast(v, depth + 1)
         name = d["_"]
         if name == "HROperation":
             op = d.get("op")
@@ -126,6 +131,34 @@ def raw_comments(text: str) -> List[str]:
 # ------------------------------------------------------------------------------------------------ corpus
 def corpus_scripts() -> List[Path]:
     return sorted(Path(p) for p in glob.glob(str(TESTS / "**" / "*.vtl"), recursive=True))
+
+
+def stratified_corpus(n: Optional[int] = None) -> List[Path]:
+    """Seed-independent sample of the corpus for the quick tier: scripts grouped by test directory (tests/<Dir>), each group sampled at
+    evenly spaced positions, groups interleaved round-robin; n=None gives every script in that interleaved order."""
+    groups: Dict[str, List[Path]] = {}
+    for p in corpus_scripts():
+        rel = p.relative_to(TESTS).parts
+        groups.setdefault(rel[0], []).append(p)
+    order: List[Path] = []
+    lists = [groups[k] for k in sorted(groups)]
+    if n is not None:
+        total = sum(len(g) for g in lists)
+        picked = []
+        for g in lists:
+            k = max(2, round(n * len(g) / total))
+            k = min(k, len(g))
+            picked.append([g[(i * len(g)) // k] for i in range(k)])
+        lists = picked
+    i = 0
+    while any(lists):
+        for g in lists:
+            if i < len(g):
+                order.append(g[i])
+        i += 1
+        if all(i >= len(g) for g in lists):
+            break
+    return order
 
 
 def read_script(p: Path) -> str:
